@@ -86,7 +86,8 @@ pub mod verif_hooks {
     pub use super::remotes::{LaneRegistry, RemoteSender, RemoteTracker, UplinkResponse};
     pub use super::verif_http_task::{http_task_for_verif, HttpTaskHandles};
     pub use super::verif_write_task::{
-        write_task_for_verif, write_task_for_verif_reporting, WriteTaskHandles,
+        write_task_for_verif, write_task_for_verif_reporting, write_task_for_verif_store,
+        WriteTaskHandles,
     };
     pub use super::write_fut::{SpecialAction, WriteAction, WriteTask};
 }
@@ -2266,6 +2267,37 @@ pub mod verif_write_task {
         lane_buffer: NonZeroUsize,
         aggregate: Option<UplinkReporter>,
     ) -> (impl Future<Output = Result<(), StoreError>> + Send + 'static, WriteTaskHandles) {
+        write_task_for_verif_inner(identity, node_uri, runtime_config, lanes, lane_buffer, aggregate, StoreDisabled)
+    }
+
+    /// As `write_task_for_verif`, with persistence: the state of every non-transient lane (initial or
+    /// registered later) goes to `store`.
+    pub fn write_task_for_verif_store<S>(
+        identity: Uuid,
+        node_uri: &str,
+        runtime_config: AgentRuntimeConfig,
+        lanes: Vec<(&str, UplinkKind, bool)>,
+        lane_buffer: NonZeroUsize,
+        store: S,
+    ) -> (impl Future<Output = Result<(), StoreError>> + Send + 'static, WriteTaskHandles)
+    where
+        S: swimos_api::persistence::NodePersistence + Send + Sync + 'static,
+    {
+        write_task_for_verif_inner(identity, node_uri, runtime_config, lanes, lane_buffer, None, crate::agent::store::StorePersistence(store))
+    }
+
+    fn write_task_for_verif_inner<Store>(
+        identity: Uuid,
+        node_uri: &str,
+        runtime_config: AgentRuntimeConfig,
+        lanes: Vec<(&str, UplinkKind, bool)>,
+        lane_buffer: NonZeroUsize,
+        aggregate: Option<UplinkReporter>,
+        store: Store,
+    ) -> (impl Future<Output = Result<(), StoreError>> + Send + 'static, WriteTaskHandles)
+    where
+        Store: AgentPersistence + Send + Sync + 'static,
+    {
         let reporting = aggregate.map(|agg| {
             let (reg_tx, _reg_rx) = mpsc::channel(1);
             NodeReporting::new(identity, agg, reg_tx)
@@ -2288,7 +2320,7 @@ pub mod verif_write_task {
             read_tx,
             vote1,
             reporting,
-            StoreDisabled,
+            store,
         );
         let handles = WriteTaskHandles { read_voter: vote2, http_voter: vote3, vote_rx, stop: Some(stop_tx), messages_tx, read_rx, lanes: agent_side };
         (task, handles)
